@@ -7,7 +7,8 @@ import typing
 Entry = typing.Tuple[str, int, int, int, str]
 
 
-def snapshot(root: str, with_mtime: bool = True) -> typing.Dict[str, Entry]:
+def snapshot(root: str, with_mtime: bool = True, follow_file_links: bool = False) -> typing.Dict[str, Entry]:
+    """follow_file_links: a symbolic link to a regular file is reported as the file a reader of that path sees"""
     out = {}  # type: typing.Dict[str, Entry]
     if not os.path.lexists(root):
         return out
@@ -27,7 +28,13 @@ def snapshot(root: str, with_mtime: bool = True) -> typing.Dict[str, Entry]:
                 out[rel] = ("d", 0, stat.S_IMODE(st.st_mode), mt, "")
                 stack.append(p)
             elif stat.S_ISLNK(st.st_mode):
-                out[rel] = ("l", 0, 0, mt, os.readlink(p))
+                if follow_file_links and os.path.isfile(p):
+                    st2 = os.stat(p)
+                    with open(p, "rb") as f:
+                        h = hashlib.sha256(f.read()).hexdigest()
+                    out[rel] = ("f", st2.st_size, stat.S_IMODE(st2.st_mode), st2.st_mtime_ns if with_mtime else 0, h)
+                else:
+                    out[rel] = ("l", 0, 0, mt, os.readlink(p))
             else:
                 with open(p, "rb") as f:
                     h = hashlib.sha256(f.read()).hexdigest()
